@@ -1873,13 +1873,15 @@ impl Sessions {
 
     pub fn get_session_for_eviction(&mut self) -> Option<&mut Session> {
         let mut lru_index = None;
-        let mut lru_ts = Instant::now();
+        // `None` until the first candidate is found: a session that was last used at this very
+        // instant (timer granularity) is still a candidate when there is no older one
+        let mut lru_ts: Option<Instant> = None;
         for (i, s) in self.sessions.iter().enumerate() {
-            if (s.expired || s.last_use < lru_ts)
+            if (s.expired || lru_ts.map(|lru_ts| s.last_use < lru_ts).unwrap_or(true))
                 && !s.reserved
                 && s.exchanges.iter().all(Option::is_none)
             {
-                lru_ts = s.last_use;
+                lru_ts = Some(s.last_use);
                 lru_index = Some(i);
 
                 if s.expired {
